@@ -1279,8 +1279,18 @@ void tickit_window_take_focus(TickitWindow *win)
 
 static void _focus_gained(TickitWindow *win, TickitWindow *child)
 {
-  if(win->focused_child && child && win->focused_child != child)
+  /* Whoever held the focus below this window loses it now, whether the new
+   * holder is another child or this window itself */
+  if(win->focused_child && win->focused_child != child) {
     _focus_lost(win->focused_child);
+  }
+
+  if(child && win->is_focused) {
+    /* The focus moves on to a descendant; this window no longer holds it */
+    win->is_focused = false;
+    TickitFocusEventInfo info = { .type = TICKIT_FOCUSEV_OUT, .win = win };
+    run_events(win, TICKIT_WINDOW_ON_FOCUS, &info);
+  }
 
   if(win->parent) {
     if(win->is_visible)
